@@ -888,7 +888,7 @@ fn eval_src(ctx: &Ctx, acc: &mut Acc, case: &Case, t: &Tok, src: u8, pd: u8, ove
 // ------------------------------------------------------------------ (c) verifier table
 const VMSG: &[u8] = b"eyJhbGciOiJFZERTQSJ9.aGk";
 const VMSG2: &[u8] = b"eyJhbGciOiJFZERTQSJ9.aGl";
-const VKEYS: [&str; 13] = [
+const VKEYS: [&str; 19] = [
   "ed25519",
   "p256",
   "k256",
@@ -902,6 +902,13 @@ const VKEYS: [&str; 13] = [
   "p256-y-33-bytes",
   "p256-other",
   "k256-other",
+  // the signer's x with a y that is not the signer's (such a key is another key — in general not even a curve point)
+  "p256-x-of-signer-y-top-bit-flipped",
+  "p256-x-of-signer-y-second-lowest-bit-flipped",
+  "p256-x-of-signer-y-of-the-other-key",
+  "k256-x-of-signer-y-top-bit-flipped",
+  "k256-x-of-signer-y-second-lowest-bit-flipped",
+  "k256-x-of-signer-y-of-the-other-key",
 ];
 const VSIGS: [&str; 18] = [
   "valid-ed",
@@ -999,7 +1006,30 @@ fn vkey(k: u8) -> Jwk {
       j
     }
     11 => public(1, 1),
-    _ => public(2, 1),
+    12 => public(2, 1),
+    n => {
+      // 13..=15 P-256, 16..=18 secp256k1
+      let alg = if n <= 15 { 1 } else { 2 };
+      let shape = (n - 13) % 3;
+      let mut j = public(alg, 0);
+      let other_y = match public(alg, 1).params() {
+        JwkParams::Ec(p) => p.y.clone(),
+        _ => String::new(),
+      };
+      if let JwkParams::Ec(p) = j.params_mut() {
+        let mut y = identity_jose::jwu::decode_b64(&p.y).unwrap();
+        match shape {
+          0 => y[0] ^= 0x80,
+          1 => {
+            let last = y.len() - 1;
+            y[last] ^= 0x02;
+          }
+          _ => y = identity_jose::jwu::decode_b64(&other_y).unwrap(),
+        }
+        p.y = b64(y);
+      }
+      j
+    }
   }
 }
 fn vsig(s: u8) -> Vec<u8> {
